@@ -64,4 +64,35 @@ def flavorOf (mode : String) : Option Spec.Flavor :=
 
 def bad : String := "bad-op"
 
+/-- a block cipher given as a finite table of (direction, input, output) entries — the blocks a *real* cipher was
+    asked to process while the implementation ran the case (harness `Logged<C>`, thorough tier).  A query the
+    implementation never made is answered from the opposite direction's entries if possible (the cipher is a
+    permutation) and otherwise with a marker value, so that the disagreement shows up in the output. -/
+structure TabEntry where
+  enc : Bool
+  inp : Bytes
+  out : Bytes
+
+def parseTab (t : String) : Option (List TabEntry) :=
+  if t == "-" then some [] else
+  (t.splitOn ",").mapM fun e =>
+    match e.splitOn ":" with
+    | [d, i, o] => do
+      let ib ← fromHex i
+      let ob ← fromHex o
+      if d == "E" then pure { enc := true, inp := ib, out := ob }
+      else if d == "D" then pure { enc := false, inp := ib, out := ob } else none
+    | _ => none
+
+def tabLookup (tab : List TabEntry) (enc : Bool) (x : Bytes) : Bytes :=
+  match tab.find? (fun e => e.enc == enc && e.inp == x) with
+  | some e => e.out
+  | none =>
+    match tab.find? (fun e => e.enc != enc && e.out == x) with
+    | some e => e.inp
+    | none => x.map (· ^^^ 0x5a) ++ [0xee]          -- marker: wrong length on purpose
+
+def tabCipher (bs : Nat) (tab : List TabEntry) : Cipher :=
+  { bs := bs, enc := tabLookup tab true, dec := tabLookup tab false }
+
 end Driver
